@@ -341,7 +341,189 @@ func runC10(t *testing.T, x c10Scn, verbose bool) (c vfCase) {
 	return c
 }
 
+// ---- both endpoints real: the same emission-time monitors on both senders ----
+//
+// Covers what the puppet cannot: every way an association can start (client/server, both
+// clients, out-of-band tokens), asymmetric receive buffers, paused readers that close the
+// window, and the library's own receiver producing the advertisements.
+
+type c10E2E struct {
+	Sc vfE1 `json:"sc"`
+}
+
+func genC10E2E(rt *rapid.T) c10E2E {
+	var x c10E2E
+	o := vfGenOpts{}
+	x.Sc.Cfg[0] = genSideCfg(rt, "a", o)
+	x.Sc.Cfg[1] = genSideCfg(rt, "b", o)
+	for i := 0; i < 2; i++ {
+		// small and asymmetric windows are the interesting ones here
+		x.Sc.Cfg[i].RBuf = rapid.SampledFrom([]int{1500, 2500, 4000, 8000, 30000, 0}).Draw(rt, "rbuf")
+		x.Sc.Cfg[i].RTOMax = 2000
+	}
+	x.Sc.Mode = rapid.SampledFrom([]string{"", "cc", "snap", "snap"}).Draw(rt, "mode")
+	x.Sc.First = rapid.IntRange(0, 1).Draw(rt, "first")
+	il := x.Sc.Cfg[0].IL && x.Sc.Cfg[1].IL
+	nw := rapid.IntRange(1, 10).Draw(rt, "nw")
+	for i := 0; i < nw; i++ {
+		side := rapid.IntRange(0, 1).Draw(rt, "side")
+		mp := vfMaxPayload(&x.Sc.Cfg[side], il)
+		lim := x.Sc.Cfg[1-side].rbuf() / 2
+		if lim > 40000 {
+			lim = 40000
+		}
+		x.Sc.Acts = append(x.Sc.Acts, vfAct{AtMs: rapid.SampledFrom([]int{0, 0, 0, 1, 30, 300}).Draw(rt, "wat"), Side: side, Kind: "write", SID: rapid.IntRange(0, 2).Draw(rt, "sid")*2 + side,
+			Size: genSize(rt, "size", mp, lim), PPI: 53})
+	}
+	if rapid.Bool().Draw(rt, "pause") {
+		side := rapid.IntRange(0, 1).Draw(rt, "pside")
+		x.Sc.Acts = append(x.Sc.Acts, vfAct{AtMs: 0, Side: side, Kind: "pause"}, vfAct{AtMs: rapid.SampledFrom([]int{200, 1500, 4000}).Draw(rt, "resume"), Side: side, Kind: "resume"})
+	}
+	sort.SliceStable(x.Sc.Acts, func(i, j int) bool { return x.Sc.Acts[i].AtMs < x.Sc.Acts[j].AtMs })
+	if in := rapid.SampledFrom([]int{0, 0, 15}).Draw(rt, "intensity"); in > 0 {
+		x.Sc.Faults.Pos[0] = genPosFaults(rt, "fa", 40, 4, in)
+		x.Sc.Faults.Pos[1] = genPosFaults(rt, "fb", 40, 4, in)
+	}
+	return x
+}
+
+func runC10E2E(t *testing.T, x c10E2E, verbose bool) (c vfCase) {
+	sc := x.Sc
+	sc.Acts = append([]vfAct(nil), x.Sc.Acts...)
+	type tx struct {
+		n     int
+		acked bool
+	}
+	var chunks [2]map[uint32]*tx
+	var outstanding, lastARwnd [2]int
+	var cwndQ [2]uint32
+	var cum [2]uint32
+	var cumSeen [2]bool
+	windowLimited, asym := false, sc.Cfg[0].rbuf() != sc.Cfg[1].rbuf()
+	for i := 0; i < 2; i++ {
+		chunks[i] = map[uint32]*tx{}
+		lastARwnd[i] = sc.Cfg[1-i].rbuf() // what the peer's INIT / INIT-ACK / token advertises
+	}
+	out := vfRunE1(t, &sc, vfE1Opts{verbose: verbose, done: vfAllDelivered, bound: func(*vfSim) time.Duration { return vfDrainBound(&sc) },
+		preHS: func(s *vfSim) {
+			s.net.onWire = func(ev *vfWireEv) {
+				if ev.P == nil || c.Verdict != "" || s.as[ev.Side] == nil {
+					return
+				}
+				X := ev.Side
+				mtu := sc.Cfg[X].mtu()
+				hasData := false
+				for i := range ev.P.Chunks {
+					ch := &ev.P.Chunks[i]
+					switch ch.Type {
+					case wtINIT, wtINITACK:
+						lastARwnd[1-X] = int(ch.ARwnd)
+						continue
+					case wtDATA, wtIDATA:
+					default:
+						continue
+					}
+					hasData = true
+					if _, seen := chunks[X][ch.TSN]; seen {
+						continue
+					}
+					before := outstanding[X]
+					chunks[X][ch.TSN] = &tx{n: len(ch.Data)}
+					outstanding[X] += len(ch.Data)
+					if before == 0 {
+						continue // a single chunk may always be in flight (window probe)
+					}
+					cw := s.as[X].CWND()
+					if cwndQ[X] > cw {
+						cw = cwndQ[X]
+					}
+					if outstanding[X] > int(cw) {
+						c.fail("cwnd-exceeded", "t=%v side %d: new DATA tsn=%d (%d bytes) sent with %d bytes already outstanding: %d > cwnd %d", ev.T, X, ch.TSN, len(ch.Data), before, outstanding[X], cw)
+					}
+					if outstanding[X] > lastARwnd[X] {
+						c.fail("rwnd-exceeded", "t=%v side %d: new DATA tsn=%d (%d bytes) sent with %d bytes already outstanding: %d > peer's last advertised window %d (mode %q, buffers %d / %d)",
+							ev.T, X, ch.TSN, len(ch.Data), before, outstanding[X], lastARwnd[X], sc.Mode, sc.Cfg[0].rbuf(), sc.Cfg[1].rbuf())
+					}
+				}
+				if hasData && len(ev.Raw) > mtu {
+					c.fail("mtu-exceeded", "t=%v side %d: packet of %d bytes carrying user data exceeds the MTU %d", ev.T, X, len(ev.Raw), mtu)
+				}
+			}
+			s.net.onDeliver = func(to int, raw []byte) {
+				if s.net.conns[to].isClosed() {
+					return
+				}
+				pk, err := wDecode(raw)
+				if err != nil || pk == nil {
+					return
+				}
+				for i := range pk.Chunks {
+					ch := &pk.Chunks[i]
+					if ch.Type != wtSACK {
+						continue
+					}
+					// an acknowledgement older than one already processed (reordered on the way) is
+					// discarded by the sender as a whole, window included
+					if cumSeen[to] && sna32LT(ch.Cum, cum[to]) {
+						continue
+					}
+					cum[to], cumSeen[to] = ch.Cum, true
+					lastARwnd[to] = int(ch.ARwnd)
+					for tsn, tr := range chunks[to] {
+						if tr.acked {
+							continue
+						}
+						ok := sna32LTE(tsn, ch.Cum)
+						if !ok {
+							off := tsn - ch.Cum
+							for _, g := range ch.Gaps {
+								if off >= uint32(g[0]) && off <= uint32(g[1]) {
+									ok = true
+								}
+							}
+						}
+						if ok {
+							tr.acked = true
+							outstanding[to] -= tr.n
+						}
+					}
+				}
+			}
+			s.o.onQuiesce = func() {
+				for i := 0; i < 2; i++ {
+					if a := s.as[i]; a != nil {
+						pk := vfPeekAssoc(a)
+						cwndQ[i] = pk.CWND
+						if pk.PendingN > 0 && pk.InflightN > 0 {
+							windowLimited = true
+						}
+					}
+				}
+			}
+		},
+		eval: func(s *vfSim, out *vfE1Out) { s.o.onQuiesce = nil }})
+	if out.Panic != "" && c.Verdict == "" {
+		c.fail("bubble-panic", "bubble: %s", out.Panic)
+	}
+	if !out.HSOK && c.Verdict == "" {
+		c.Skip = true
+	}
+	c.class("mode-" + sc.Mode)
+	if asym {
+		c.class("asymmetric-buffers")
+	}
+	if windowLimited {
+		c.class("window-limited")
+	}
+	c.Nontrivial = windowLimited
+	if (c.Verdict != "" || verbose) && out.sim != nil {
+		c.Detail = out.sim.history(300)
+	}
+	return c
+}
+
 // passive variant: both endpoints real, generated faults; same monitors on both senders
 func TestVF_C10(t *testing.T) {
 	vfExplore(t, "C10", "puppet-receiver", vfN(2400, 60000), genC10, func(x c10Scn) vfCase { return runC10(t, x, vfEnv.Replay != "") })
+	vfExplore(t, "C10", "e2e", vfN(1600, 40000), genC10E2E, func(x c10E2E) vfCase { return runC10E2E(t, x, vfEnv.Replay != "") })
 }
